@@ -262,3 +262,209 @@ Proof.
   - split; [vm_compute; discriminate|]. repeat constructor.
   - split; [vm_compute; discriminate|]. repeat constructor.
 Qed.
+
+(** ------------------------------------------------------------------------------------------
+    C13 composed with C01 at Coq level (Compose/PatchBytes.v, Compose/PatchBytesProofs.v,
+    Compose/PatchBytesExample.v): from MESSAGE LISTS to BYTES.
+
+    [patch_bytes C differ algo quality old new] is the patch FILE pwr.DiffContext.WritePatch
+    writes:   magic_enc PatchMagic ++ frame (marshal header) ++ compress (frames of: old
+    container, new container, per new file SyncHeader, SyncOps, end marker)   with C13's
+    [write_msgs] / [write_stream] for the framing; [C : patch_codecs] is the record of external
+    components: a protobuf marshal / unmarshal pair per Go message type (PatchHeader,
+    tlc.Container, SyncHeader, SyncOp, BsdiffHeader, Control) and the compressor / decompressor
+    by algorithm.  [read_patch_bytes C cap z] is patcher.New + the reads of Resume: ExpectMagic,
+    the header, DecompressWire, then C13's [read_stream] delivering the bodies, each unmarshalled
+    as the Go type the patcher passes to ReadMessage at that point of the stream ([expect]);
+    [apply_patch_bytes] feeds the result to C01's patcher.  The abstract codec of
+    [diff_apply_fresh_end_to_end_any_codec] ([decode (encode fs) = Some fs] for EVERY frame list)
+    cannot be instantiated by these functions - the bodies do not say which type they are, so
+    the typed reader inverts the writer only on frame lists that follow the grammar of a patch;
+    what had to be reconciled is listed at the head of Compose/PatchBytes.v.
+
+    Hypotheses, all about external components and all in the statements:
+      [codecs_roundtrip C]              unmarshal_T (marshal_T m) = Some m, per message type T
+      [compression_roundtrips C a q]    a = NONE, or decompress_a (compress_(a,q) s) = Some s   (C13)
+      [bodies_fit C frames]             every marshalled body is shorter than 2^56 bytes (beyond,
+                                        the writer panics: C13 [varint_buffer_suffices])
+    plus those of [diff_apply_fresh_end_to_end]. *)
+From Wharf Require Import Wire.Frame Compose.PatchBytes Compose.PatchBytesProofs Compose.PatchBytesExample.
+
+(** The bridge, in general (rsync and bsdiff series alike): what replaces the unsatisfiable
+    "[decode (encode fs) = Some fs] for every frame list".  For every header, pair of containers
+    and per-file message list in which every message is of the type the reader expects at its
+    position ([grammar_ok]), the file is written and read back as exactly those frames, then
+    end of stream. *)
+Theorem patch_file_read_write_roundtrip :
+  forall (C : patch_codecs), codecs_roundtrip C ->
+  forall (cap : N) (algo quality : Z) (tc sc : container) (ms : list pmsg),
+    grammar_ok ms -> compression_roundtrips C algo quality ->
+    bodies_fit C (FHeader algo quality :: FContainer tc :: FContainer sc :: map FMsg ms) ->
+    exists z, patch_file C algo quality (FContainer tc :: FContainer sc :: map FMsg ms) = WOk z /\
+              read_patch_bytes C cap z = (FHeader algo quality :: FContainer tc :: FContainer sc :: map FMsg ms, EEOF).
+Proof. exact read_patch_bytes_full. Qed.
+Print Assumptions patch_file_read_write_roundtrip.
+
+(** what WritePatch emits follows the grammar, whatever the differ *)
+Theorem write_patch_follows_grammar :
+  forall (differ : Z -> list byte -> list op) (old new : build), grammar_ok (patch_msgs differ old new).
+Proof. exact patch_msgs_grammar. Qed.
+Print Assumptions write_patch_follows_grammar.
+
+(** For every block size and data-op limit > 0, every old build, every well-formed new build
+    (C11's strong-hash hypothesis, sizes fitting int64), every codec record that round-trips
+    per message type, every compression setting whose codec round-trips, every initial buffer
+    capacity: WritePatch produces a file [z]; reading [z] yields exactly the frames of
+    [write_patch] followed by end of stream; and patcher.New + Resume on the BYTES [z] over an
+    empty directory succeeds, touches every file, and the output tree IS the new build. *)
+Theorem diff_apply_fresh_bytes :
+  forall (C : patch_codecs), codecs_roundtrip C ->
+  forall (H : Type) (shash : list N -> H) (heqb : H -> H -> bool)
+         (bs : Z) (maxData : N) (old new : build) (algo quality : Z) (cap : N),
+    0 < bs -> (0 < maxData)%N -> (forall x y, heqb x y = true -> x = y) ->
+    Forall (fun data => Wsync.Spec.strong_injective shash (Z.to_N bs) (contents_of old) data) (contents_of new) ->
+    wf_build new -> fits63 old -> fits63 new ->
+    compression_roundtrips C algo quality ->
+    bodies_fit C (write_patch (real_differ shash heqb bs maxData (contents_of old)) algo quality old new) ->
+    exists z t touched trace,
+      patch_bytes C (real_differ shash heqb bs maxData (contents_of old)) algo quality old new = WOk z /\
+      read_patch_bytes C cap z = (write_patch (real_differ shash heqb bs maxData (contents_of old)) algo quality old new, EEOF) /\
+      apply_patch_bytes C bs (contents_of old) None cap z = Ok (t, touched, trace) /\
+      touched = Z.of_nat (length (files_of new)) /\
+      forall p, tlookup t p = tlookup new p.
+Proof. exact diff_apply_fresh_bytes_lemma. Qed.
+Print Assumptions diff_apply_fresh_bytes.
+
+(** the same with C01's abstract differ under [diff_ok] *)
+Theorem diff_apply_fresh_bytes_abstract_differ :
+  forall (C : patch_codecs), codecs_roundtrip C ->
+  forall (bs : Z) (differ : Z -> list byte -> list op) (old new : build) (algo quality : Z) (cap : N),
+    0 < bs -> wf_build new -> fits63 old -> fits63 new -> diff_ok bs (contents_of old) differ ->
+    compression_roundtrips C algo quality ->
+    bodies_fit C (write_patch differ algo quality old new) ->
+    exists z t touched trace,
+      patch_bytes C differ algo quality old new = WOk z /\
+      read_patch_bytes C cap z = (write_patch differ algo quality old new, EEOF) /\
+      apply_patch_bytes C bs (contents_of old) None cap z = Ok (t, touched, trace) /\
+      touched = Z.of_nat (length (files_of new)) /\
+      forall p, tlookup t p = tlookup new p.
+Proof. exact diff_apply_fresh_bytes_abstract_lemma. Qed.
+Print Assumptions diff_apply_fresh_bytes_abstract_differ.
+
+(** C01's patcher on a proper prefix of the frames of a patch returns an error: not Ok (no
+    silently incomplete tree), not a panic (every loop that needs a message and finds the list
+    exhausted returns the error of that ReadMessage call; the frames before the cut are those of
+    the successful run) *)
+Theorem patcher_rejects_truncated_frames :
+  forall (bs : Z) (differ : Z -> list byte -> list op) (old new : build) (algo quality : Z) (k : nat),
+    0 < bs -> wf_build new -> fits63 old -> fits63 new -> diff_ok bs (contents_of old) differ ->
+    (k < length (write_patch differ algo quality old new))%nat ->
+    apply_patch_fresh bs (contents_of old) None (firstn k (write_patch differ algo quality old new)) = Err.
+Proof. exact apply_truncated_frames. Qed.
+Print Assumptions patcher_rejects_truncated_frames.
+
+(** A patch file cut at ANY byte never yields a wrong tree silently.  [p] = the bytes before
+    the cut ([q <> []] was lost).  With C13's [truncated_stream] (prefix-freeness of the framing):
+    the reader obtains the first [k] frames of the patch and then io.EOF / io.ErrUnexpectedEOF -
+    never a wrong frame - and the patcher returns an error, or (only possible when the
+    decompressor delivered the whole content from the cut stream, e.g. a gzip stream lacking
+    only its trailer: the patcher does not read past the last file) the tree of the whole patch.
+    Hypothesis about the decompressor ([truncation_prefix]; nothing for NONE): from a cut of
+    [compress s] it delivers, if anything, a prefix of [s].  If it never delivers everything
+    from a cut stream ([truncation_detected]; NONE always), [k] is smaller than the number of
+    frames and the patcher returns an error. *)
+Theorem truncated_patch_is_an_error_or_prefix :
+  forall (C : patch_codecs), codecs_roundtrip C ->
+  forall (H : Type) (shash : list N -> H) (heqb : H -> H -> bool)
+         (bs : Z) (maxData : N) (old new : build) (algo quality : Z) (cap : N) (p q : list byte),
+    0 < bs -> (0 < maxData)%N -> (forall x y, heqb x y = true -> x = y) ->
+    Forall (fun data => Wsync.Spec.strong_injective shash (Z.to_N bs) (contents_of old) data) (contents_of new) ->
+    wf_build new -> fits63 old -> fits63 new ->
+    truncation_prefix C algo quality ->
+    bodies_fit C (write_patch (real_differ shash heqb bs maxData (contents_of old)) algo quality old new) ->
+    patch_bytes C (real_differ shash heqb bs maxData (contents_of old)) algo quality old new = WOk (p ++ q) -> q <> [] ->
+    exists k e,
+      read_patch_bytes C cap p = (firstn k (write_patch (real_differ shash heqb bs maxData (contents_of old)) algo quality old new), e) /\
+      (e = EEOF \/ e = EUnexpectedEOF) /\
+      (apply_patch_bytes C bs (contents_of old) None cap p = Err \/
+       (exists t touched trace, apply_patch_bytes C bs (contents_of old) None cap p = Ok (t, touched, trace) /\
+                                forall x, tlookup t x = tlookup new x)) /\
+      (truncation_detected C algo quality ->
+       (k < length (write_patch (real_differ shash heqb bs maxData (contents_of old)) algo quality old new))%nat /\
+       apply_patch_bytes C bs (contents_of old) None cap p = Err).
+Proof. exact truncated_patch_lemma. Qed.
+Print Assumptions truncated_patch_is_an_error_or_prefix.
+
+(** ... in short, when the decompressor notices a cut (NONE: [truncation_detected_none]) *)
+Theorem truncated_patch_is_an_error :
+  forall (C : patch_codecs), codecs_roundtrip C ->
+  forall (H : Type) (shash : list N -> H) (heqb : H -> H -> bool)
+         (bs : Z) (maxData : N) (old new : build) (algo quality : Z) (cap : N) (p q : list byte),
+    0 < bs -> (0 < maxData)%N -> (forall x y, heqb x y = true -> x = y) ->
+    Forall (fun data => Wsync.Spec.strong_injective shash (Z.to_N bs) (contents_of old) data) (contents_of new) ->
+    wf_build new -> fits63 old -> fits63 new ->
+    truncation_detected C algo quality ->
+    bodies_fit C (write_patch (real_differ shash heqb bs maxData (contents_of old)) algo quality old new) ->
+    patch_bytes C (real_differ shash heqb bs maxData (contents_of old)) algo quality old new = WOk (p ++ q) -> q <> [] ->
+    apply_patch_bytes C bs (contents_of old) None cap p = Err.
+Proof. exact truncated_patch_is_an_error_lemma. Qed.
+Print Assumptions truncated_patch_is_an_error.
+
+Theorem uncompressed_patches_detect_truncation :
+  forall (C : patch_codecs) (quality : Z), truncation_detected C ALGO_NONE quality.
+Proof. exact truncation_detected_none. Qed.
+
+(** non-vacuity: a toy codec record (numbers and length-prefixed lists, identity compressor
+    under every algorithm; Compose/PatchBytesExample.v) satisfies the hypotheses ... *)
+Example codec_hypotheses_inhabited :
+  codecs_roundtrip toy_codecs /\
+  (forall algo quality, compression_roundtrips toy_codecs algo quality) /\
+  (forall algo quality, truncation_detected toy_codecs algo quality).
+Proof.
+  split; [exact toy_codecs_roundtrip|]. split; [exact toy_compression_roundtrips|exact toy_truncation_detected].
+Qed.
+
+(** ... and on the build pair of [diff_apply_fresh_end_to_end_example], executed: the file is
+    written (algorithm 2, quality 9), reading it gives back the frames, applying the BYTES
+    gives the new build, and each of its proper prefixes makes the patcher return an error *)
+Example diff_apply_fresh_bytes_example :
+  match patch_bytes toy_codecs e2e_differ 2 9 e2e_old e2e_new with
+  | WOk z =>
+    firstn 7 z = [0; 95; 239; 15; 2; 4; 18]%N /\          (* 0x0FEF5F00 little endian; header frame; ... *)
+    read_patch_bytes toy_codecs 32768 z = (write_patch e2e_differ 2 9 e2e_old e2e_new, EEOF) /\
+    match apply_patch_bytes toy_codecs 2 (contents_of e2e_old) None 32768 z with
+    | Ok (t, touched, trace) =>
+      touched = 4 /\
+      forallb (fun e => match tlookup t (fst e), snd e with
+                        | Some (File a), File b => nlist_eqb a b
+                        | Some Dir, Dir => true
+                        | Some (Link a), Link b => nlist_eqb a b
+                        | _, _ => false end) e2e_new = true
+    | _ => False
+    end /\
+    all_cuts_fail 2 (contents_of e2e_old) 32768 z = true
+  | WPanic => False
+  end.
+Proof. vm_compute. repeat split; reflexivity. Qed.
+
+(** ... and the theorem itself instantiated on that pair and that codec *)
+Example diff_apply_fresh_bytes_instance :
+  exists z t touched trace,
+    patch_bytes toy_codecs e2e_differ 2 9 e2e_old e2e_new = WOk z /\
+    read_patch_bytes toy_codecs 32768 z = (write_patch e2e_differ 2 9 e2e_old e2e_new, EEOF) /\
+    apply_patch_bytes toy_codecs 2 (contents_of e2e_old) None 32768 z = Ok (t, touched, trace) /\
+    touched = Z.of_nat (length (files_of e2e_new)) /\
+    forall p, tlookup t p = tlookup e2e_new p.
+Proof.
+  apply (diff_apply_fresh_bytes toy_codecs toy_codecs_roundtrip (list N) (fun b => b) nlist_eqb 2 3%N e2e_old e2e_new 2 9 32768%N).
+  - reflexivity.
+  - reflexivity.
+  - exact Wsync.Theorems.nlist_eqb_sound.
+  - apply Forall_forall. intros data _. apply Wsync.Theorems.id_strong_injective.
+  - apply wf_buildb_sound. vm_compute. reflexivity.
+  - split; [vm_compute; discriminate|]. repeat constructor.
+  - split; [vm_compute; discriminate|]. repeat constructor.
+  - apply toy_compression_roundtrips.
+  - unfold bodies_fit. apply Forall_forall. intros f Hin. vm_compute in Hin.
+    repeat (destruct Hin as [<-|Hin]; [vm_compute; reflexivity|]). destruct Hin.
+Qed.
